@@ -594,3 +594,43 @@ func allInstrs(fn *ssa.Function) []ssa.Instruction {
 	}
 	return res
 }
+
+var addrTakenCache = map[*Ctx]map[*ssa.Function]bool{}
+
+// AddressTaken: module functions used as values somewhere in the module (only those can be the target
+// of a call through a function value; CHA alone matches every function of the same signature).
+func (c *Ctx) AddressTaken() map[*ssa.Function]bool {
+	if m, ok := addrTakenCache[c]; ok {
+		return m
+	}
+	taken := map[*ssa.Function]bool{}
+	fns := c.ModuleSSAFuncs()
+	for _, p := range c.Mod {
+		if sp := c.SSA().Package(p.Types); sp != nil {
+			if ini := sp.Func("init"); ini != nil && ini.Blocks != nil {
+				fns = append(fns, ini)
+			}
+		}
+	}
+	for _, fn := range fns {
+		eachInstr(fn, func(in ssa.Instruction) {
+			var ops []*ssa.Value
+			ops = in.Operands(ops)
+			for i, op := range ops {
+				if *op == nil {
+					continue
+				}
+				f, ok := (*op).(*ssa.Function)
+				if !ok {
+					continue
+				}
+				if call, isCall := in.(ssa.CallInstruction); isCall && i == 0 && call.Common().Value == *op {
+					continue // call position
+				}
+				taken[f] = true
+			}
+		})
+	}
+	addrTakenCache[c] = taken
+	return taken
+}
